@@ -215,8 +215,12 @@ impl<T: CloseValue> Slot<T> {
     ///
     /// Returns a mutable reference to the inner data if its guard didn't panic, or else None
     pub async fn wait_for_data(&mut self) -> &mut Option<T::Closed> {
-        if let Some(rx) = self.rx.take() {
+        // Wait on the receiver in place and only remove it once the wait has completed:
+        // if this future is dropped while waiting (e.g. by a timeout), the receiver
+        // must stay where `close` (or a later `wait_for_data`) can find it.
+        if let Some(rx) = self.rx.as_mut() {
             self.data = rx.wait_for_value().await;
+            self.rx = None;
         }
         &mut self.data
     }
@@ -236,8 +240,8 @@ impl<T: CloseValue> CloseValue for Slot<T> {
         match (self.data, self.rx) {
             (Some(data), _) => Some(data),
             (_, Some(rx)) => rx.take_value(),
-            // TODO: refactor to enum to avoid this branch
-            _ => unreachable!("cannot enter this state"),
+            // the wait completed without a value (the guard went away without sending one)
+            (None, None) => None,
         }
     }
 }
@@ -264,8 +268,8 @@ impl<T> Waiting<T> {
     ///
     /// Returns `Some(T)` if the value is received, or `None` if the sender
     /// was dropped without sending a value.
-    async fn wait_for_value(self) -> Option<T> {
-        self.rx.await.ok()
+    async fn wait_for_value(&mut self) -> Option<T> {
+        (&mut self.rx).await.ok()
     }
 }
 
